@@ -544,4 +544,541 @@ theorem allocIn_allocVec (σ : Store) (m : Bool) (items : List Value) :
   simp [AllocIn]
 
 end Store
+/-! ## native procedures -/
+
+namespace Prim
+
+@[simp] theorem err_snd {α} (e : Err) (σ : Store) : (err e σ : Res α).2 = σ := rfl
+@[simp] theorem ok_snd {α} (a : α) (σ : Store) : (ok a σ : Res α).2 = σ := rfl
+@[simp] theorem missing_snd {α} (b : Builtin) (σ : Store) : (missing b σ : Res α).2 = σ := rfl
+@[simp] theorem err_fst {α} (e : Err) (σ : Store) : (err e σ : Res α).1 = .error (e, none) := rfl
+@[simp] theorem ok_fst {α} (a : α) (σ : Store) : (ok a σ : Res α).1 = .ok a := rfl
+@[simp] theorem missing_fst {α} (b : Builtin) (σ : Store) :
+    (missing b σ : Res α).1 = .error (.panic ("base.rs unwrap: " ++ b.name), none) := rfl
+
+@[simp] theorem lift_snd {α} (σ : Store) (r : Except Err α) (k : α → Value) : (lift σ r k).2 = σ := by
+  unfold lift; split <;> rfl
+@[simp] theorem num1_snd (σ : Store) (args b f) : (num1 σ args b f).2 = σ := by
+  unfold num1; repeat' split <;> try rfl
+@[simp] theorem num2_snd (σ : Store) (args b f) : (num2 σ args b f).2 = σ := by
+  unfold num2; repeat' split <;> try rfl
+@[simp] theorem realFn_snd (σ : Store) (args b f) : (realFn σ args b f).2 = σ := by simp [realFn]
+@[simp] theorem realFn2_snd (σ : Store) (args b f) : (realFn2 σ args b f).2 = σ := by simp [realFn2]
+
+/-- a value that mentions no frame and no cell -/
+def NoIds (v : Value) : Prop := ∀ nf nv, v.Below nf nv
+
+theorem lift_fst {α} {σ : Store} {r : Except Err α} {k : α → Value} {v} (h : (lift σ r k).1 = .ok v) :
+    ∃ a, v = k a := by
+  unfold lift at h; split at h
+  · simp at h; exact ⟨_, h.symm⟩
+  · simp at h
+theorem num1_fst {σ : Store} {args b f v} (h : (num1 σ args b f).1 = .ok v) : ∃ n, v = .num n := by
+  unfold num1 at h
+  repeat' split at h
+  all_goals simp at h
+  exact ⟨_, h.symm⟩
+theorem num2_fst {σ : Store} {args b f v} (h : (num2 σ args b f).1 = .ok v) : ∃ n, v = .num n := by
+  unfold num2 at h
+  repeat' split at h
+  all_goals simp at h
+  exact ⟨_, h.symm⟩
+theorem realFn_fst {σ : Store} {args b f v} (h : (realFn σ args b f).1 = .ok v) : ∃ n, v = .num n :=
+  num1_fst h
+theorem realFn2_fst {σ : Store} {args b f v} (h : (realFn2 σ args b f).1 = .ok v) : ∃ n, v = .num n :=
+  num2_fst h
+
+
+theorem applyPure_frames (σ : Store) (b : Builtin) (args : List Value) :
+    (applyPure σ b args).2.frames = σ.frames := by
+  cases b <;> simp only [applyPure] <;> (repeat' split) <;> simp
+
+theorem applyPure_vecs (σ : Store) (b : Builtin) (args : List Value)
+    (h1 : b ≠ .vector) (h2 : b ≠ .makeVector) (h3 : b ≠ .vectorSet) :
+    (applyPure σ b args).2.vecs = σ.vecs := by
+  cases b <;> simp at h1 h2 h3 <;> simp only [applyPure] <;> (repeat' split) <;> simp
+
+
+theorem vectorRef_result {σ : Store} {args : List Value} {v : Value}
+    (h : (applyPure σ .vectorRef args).1 = .ok v) (wf : σ.WF) : σ.AllocIn v := by
+  simp only [applyPure] at h
+  repeat' split at h
+  all_goals simp at h
+  subst h
+  rename_i cell hc _ _ _ hx
+  exact wf.vec_vals _ cell hc _ (List.mem_of_getElem? hx)
+
+theorem applyPure_result {σ : Store} {b : Builtin} {args : List Value} {v : Value}
+    (h1 : b ≠ .vector) (h2 : b ≠ .makeVector)
+    (h : (applyPure σ b args).1 = .ok v) (wf : σ.WF) (ha : ∀ a ∈ args, σ.AllocIn a) : σ.AllocIn v := by
+  by_cases h3 : b = .vectorRef
+  · subst h3; exact vectorRef_result h wf
+  cases b <;> simp at h1 h2 h3 <;> simp only [applyPure] at h
+  all_goals first
+    | (obtain ⟨a, rfl⟩ := lift_fst h; simp [Store.AllocIn]; done)
+    | (obtain ⟨a, rfl⟩ := num1_fst h; simp [Store.AllocIn]; done)
+    | (obtain ⟨a, rfl⟩ := num2_fst h; simp [Store.AllocIn]; done)
+    | (obtain ⟨a, rfl⟩ := realFn_fst h; simp [Store.AllocIn]; done)
+    | (obtain ⟨a, rfl⟩ := realFn2_fst h; simp [Store.AllocIn]; done)
+    | ((repeat' split at h) <;> (try simp at h) <;> (try subst h) <;> (try (simp [Store.AllocIn] at ha ⊢)) <;> (try simp [ha]))
+
+/-! ### the three native procedures that touch the vector store -/
+
+theorem listSet_eq : ∀ (xs : List Value) (n : Nat) (v : Value),
+    listSet xs n v = if n < xs.length then some (xs.set n v) else none
+  | [], n, v => by simp [listSet]
+  | x :: xs, 0, v => by simp [listSet]
+  | x :: xs, n + 1, v => by
+    simp only [listSet, listSet_eq xs n v, List.length_cons, List.set_cons_succ, Nat.add_lt_add_iff_right]
+    split <;> simp
+
+theorem applyPure_vector (σ : Store) (args : List Value) :
+    applyPure σ .vector args = (.ok (.vec σ.vecs.size), (σ.allocVec true args).2) := rfl
+
+/-- the store after a successful `vector-set!` -/
+def vsetStore (σ : Store) (id : Nat) (cell : VecCell) (n : Nat) (obj : Value) : Store :=
+  { σ with vecs := σ.vecs.set! id { cell with items := cell.items.set n obj } }
+
+theorem applyPure_makeVector_shape {σ : Store} {args : List Value} {r σ'}
+    (h : applyPure σ .makeVector args = (r, σ')) :
+    (σ' = σ ∧ ∃ e, r = .error e) ∨
+    ∃ n fill rest, args = .num (.int n) :: fill :: rest ∧ 0 ≤ n ∧ r = .ok (.vec σ.vecs.size) ∧
+      σ' = (σ.allocVec true (List.replicate n.toNat fill)).2 := by
+  simp only [applyPure] at h
+  repeat' split at h
+  all_goals simp only [err, ok, missing, Prod.mk.injEq] at h
+  all_goals obtain ⟨rfl, rfl⟩ := h
+  all_goals first
+    | exact Or.inl ⟨rfl, _, rfl⟩
+    | skip
+  rename_i hn
+  exact Or.inr ⟨_, _, _, rfl, by omega, rfl, rfl⟩
+
+theorem applyPure_vectorSet_shape {σ : Store} {args : List Value} {r σ'}
+    (h : applyPure σ .vectorSet args = (r, σ')) :
+    (σ' = σ ∧ ∃ e, r = .error e) ∨
+    ∃ id n obj rest cell, args = .vec id :: .num (.int n) :: obj :: rest ∧ σ.vecs[id]? = some cell ∧
+      cell.mutable = true ∧ 0 ≤ n ∧ n.toNat < cell.items.length ∧ r = .ok .void ∧
+      σ' = vsetStore σ id cell n.toNat obj := by
+  simp only [applyPure, listSet_eq] at h
+  repeat' split at h
+  all_goals simp only [err, ok, missing, Prod.mk.injEq] at h
+  all_goals first
+    | (obtain ⟨rfl, rfl⟩ := h; exact Or.inl ⟨rfl, _, rfl⟩)
+    | skip
+  rename_i cell hc hm hn _ items hi
+  obtain ⟨rfl, rfl⟩ := h
+  split at hi
+  · rename_i hlt
+    cases hi
+    refine Or.inr ⟨_, _, _, _, cell, rfl, hc, by simpa using hm, by omega, hlt, rfl, rfl⟩
+  · cases hi
+
+theorem vsetStore_vecs_getElem? (σ : Store) (id : Nat) (cell : VecCell) (n : Nat) (obj : Value) (j : Nat) :
+    (vsetStore σ id cell n obj).vecs[j]? =
+      if id = j then (if id < σ.vecs.size then some { cell with items := cell.items.set n obj } else none)
+      else σ.vecs[j]? := by
+  simp [vsetStore, Array.set!_eq_setIfInBounds, Array.getElem?_setIfInBounds]
+
+theorem sameExceptCell_vsetStore {σ : Store} {id : Nat} {cell : VecCell} (hc : σ.vecs[id]? = some cell)
+    (n : Nat) (obj : Value) : Store.SameExceptCell σ (vsetStore σ id cell n obj) id where
+  frames := rfl
+  out := rfl
+  ticks := rfl
+  depth := rfl
+  maxDepth := rfl
+  vecs_size := by simp [vsetStore, Array.set!_eq_setIfInBounds]
+  other_cells := fun j hj => by rw [vsetStore_vecs_getElem?]; simp [Ne.symm hj]
+  flag := by
+    rw [vsetStore_vecs_getElem?, hc]
+    simp [Store.getElem?_some_lt hc]
+
+theorem grows_vsetStore {σ : Store} {id : Nat} {cell : VecCell} (hc : σ.vecs[id]? = some cell)
+    (hm : cell.mutable = true) (n : Nat) (obj : Value) : Store.Grows σ (vsetStore σ id cell n obj) where
+  frames_size := Nat.le_refl _
+  vecs_size := by simp [vsetStore, Array.set!_eq_setIfInBounds]
+  frame := fun _ f h => ⟨f, h, rfl, fun _ h => h⟩
+  cell := fun i c h => by
+    rw [vsetStore_vecs_getElem?]
+    by_cases hi : id = i
+    · subst hi
+      rw [hc] at h; cases h
+      simp only [if_true, Store.getElem?_some_lt hc]
+      exact ⟨_, rfl, rfl, by simp, fun hf => by simp [hm] at hf⟩
+    · simp only [hi, if_false]
+      exact ⟨c, h, rfl, rfl, fun _ => rfl⟩
+
+theorem wf_vsetStore {σ : Store} (wf : σ.WF) {id : Nat} {cell : VecCell} (hc : σ.vecs[id]? = some cell)
+    (n : Nat) {obj : Value} (ho : σ.AllocIn obj) : (vsetStore σ id cell n obj).WF where
+  parent_lt := wf.parent_lt
+  frame_vals := fun i f hf kv hkv => by
+    have := wf.frame_vals i f hf kv hkv
+    simpa [Store.AllocIn, vsetStore, Array.set!_eq_setIfInBounds] using this
+  vec_vals := fun i c h v hv => by
+    have hsz : (vsetStore σ id cell n obj).AllocIn v ↔ σ.AllocIn v := by
+      simp [Store.AllocIn, vsetStore, Array.set!_eq_setIfInBounds]
+    rw [hsz]
+    rw [vsetStore_vecs_getElem?] at h
+    by_cases hi : id = i
+    · subst hi
+      simp only [if_true, Store.getElem?_some_lt hc, Option.some.injEq] at h
+      subst h
+      rcases List.mem_or_eq_of_mem_set hv with hv | rfl
+      · exact wf.vec_vals _ cell hc v hv
+      · exact ho
+    · simp only [hi, if_false] at h
+      exact wf.vec_vals i c h v hv
+
+/-! ### every native procedure: `Grows`, `WF`, allocated results -/
+
+theorem applyPure_grows (σ : Store) (b : Builtin) (args : List Value) :
+    Store.Grows σ (applyPure σ b args).2 := by
+  by_cases h1 : b = .vector
+  · subst h1; exact Store.grows_allocVec ..
+  by_cases h2 : b = .makeVector
+  · subst h2
+    rcases applyPure_makeVector_shape (σ := σ) (args := args) (r := (applyPure σ .makeVector args).1) (σ' := (applyPure σ .makeVector args).2) rfl with ⟨h, _⟩ | ⟨n, fill, rest, _, _, _, h⟩
+    · rw [h]; exact Store.Grows.refl σ
+    · rw [h]; exact Store.grows_allocVec ..
+  by_cases h3 : b = .vectorSet
+  · subst h3
+    rcases applyPure_vectorSet_shape (σ := σ) (args := args) (r := (applyPure σ .vectorSet args).1) (σ' := (applyPure σ .vectorSet args).2) rfl with
+      ⟨h, _⟩ | ⟨id, n, obj, rest, cell, _, hc, hm, _, _, _, h⟩
+    · rw [h]; exact Store.Grows.refl σ
+    · rw [h]; exact grows_vsetStore hc hm _ _
+  exact Store.Grows.of_eq (applyPure_frames σ b args) (applyPure_vecs σ b args h1 h2 h3)
+
+theorem applyPure_wf {σ : Store} (wf : σ.WF) (b : Builtin) {args : List Value}
+    (ha : ∀ a ∈ args, σ.AllocIn a) :
+    (applyPure σ b args).2.WF ∧ ∀ v, (applyPure σ b args).1 = .ok v → (applyPure σ b args).2.AllocIn v := by
+  by_cases h1 : b = .vector
+  · subst h1
+    exact ⟨Store.wf_allocVec wf true ha, fun v hv => by
+      rw [applyPure_vector] at hv ⊢; simp at hv; subst hv; simp [Store.AllocIn]⟩
+  by_cases h2 : b = .makeVector
+  · subst h2
+    rcases applyPure_makeVector_shape (σ := σ) (args := args) (r := (applyPure σ .makeVector args).1) (σ' := (applyPure σ .makeVector args).2) rfl with
+      ⟨h, e, he⟩ | ⟨n, fill, rest, hargs, _, hr, h⟩
+    · rw [h, he]; exact ⟨wf, fun v hv => by cases hv⟩
+    · rw [h, hr]
+      refine ⟨Store.wf_allocVec wf true fun v hv => ?_, fun v hv => by cases hv; simp [Store.AllocIn]⟩
+      rw [List.eq_of_mem_replicate hv]
+      exact ha _ (by simp [hargs])
+  by_cases h3 : b = .vectorSet
+  · subst h3
+    rcases applyPure_vectorSet_shape (σ := σ) (args := args) (r := (applyPure σ .vectorSet args).1) (σ' := (applyPure σ .vectorSet args).2) rfl with
+      ⟨h, e, he⟩ | ⟨id, n, obj, rest, cell, hargs, hc, hm, _, _, hr, h⟩
+    · rw [h, he]; exact ⟨wf, fun v hv => by cases hv⟩
+    · rw [h, hr]
+      exact ⟨wf_vsetStore wf hc _ (ha _ (by simp [hargs])), fun v hv => by cases hv; simp [Store.AllocIn]⟩
+  have hf := applyPure_frames σ b args
+  have hv := applyPure_vecs σ b args h1 h2 h3
+  have hiff : ∀ v, (applyPure σ b args).2.AllocIn v ↔ σ.AllocIn v := by
+    intro v; simp [Store.AllocIn, hf, hv]
+  refine ⟨⟨?_, ?_, ?_⟩, fun v h => (hiff v).2 (applyPure_result h1 h2 h wf ha)⟩
+  · rw [hf]; exact wf.parent_lt
+  · intro i f hi kv hkv; rw [hf] at hi; exact (hiff _).2 (wf.frame_vals i f hi kv hkv)
+  · intro i c hi v hv'; rw [hv] at hi; exact (hiff _).2 (wf.vec_vals i c hi v hv')
+
+end Prim
+
+/-! ## literals -/
+
+namespace Eval
+
+/-- what evaluating a literal does to the store: it appends immutable cells, nothing else -/
+def LitStep (σ σ' : Store) : Prop :=
+  ∃ cells : Array VecCell, σ' = { σ with vecs := σ.vecs ++ cells } ∧ ∀ c ∈ cells, c.mutable = false
+
+theorem LitStep.refl (σ : Store) : LitStep σ σ := ⟨#[], by simp, by simp⟩
+
+theorem LitStep.trans {σ₁ σ₂ σ₃ : Store} (h₁ : LitStep σ₁ σ₂) (h₂ : LitStep σ₂ σ₃) : LitStep σ₁ σ₃ := by
+  obtain ⟨c₁, rfl, hc₁⟩ := h₁
+  obtain ⟨c₂, rfl, hc₂⟩ := h₂
+  refine ⟨c₁ ++ c₂, by simp [Array.append_assoc], fun c hc => ?_⟩
+  rcases Array.mem_append.1 hc with h | h
+  · exact hc₁ c h
+  · exact hc₂ c h
+
+theorem LitStep.allocVec (σ : Store) (items : List Value) : LitStep σ (σ.allocVec false items).2 :=
+  ⟨#[{ mutable := false, items := items }], by simp [Store.allocVec], by simp⟩
+
+theorem LitStep.grows {σ σ' : Store} (h : LitStep σ σ') : Store.Grows σ σ' := by
+  obtain ⟨cells, rfl, _⟩ := h
+  refine ⟨Nat.le_refl _, by simp, fun _ f h => ⟨f, h, rfl, fun _ h => h⟩, fun i c h => ?_⟩
+  refine ⟨c, ?_, rfl, rfl, fun _ => rfl⟩
+  simp only
+  rw [Array.getElem?_append_left (Store.getElem?_some_lt h)]
+  exact h
+
+/-- everything `readLiteral` guarantees, in one statement (for the mutual induction) -/
+def LitSpec (σ : Store) (r : Except SErr Value) (σ' : Store) : Prop :=
+  LitStep σ σ' ∧ (σ.WF → σ'.WF ∧ ∀ v, r = .ok v → σ'.AllocIn v)
+
+def LitsSpec (σ : Store) (r : Except SErr (List Value)) (σ' : Store) : Prop :=
+  LitStep σ σ' ∧ (σ.WF → σ'.WF ∧ ∀ vs, r = .ok vs → ∀ v ∈ vs, σ'.AllocIn v)
+
+mutual
+theorem readLiteral_spec : ∀ (d : Datum) (σ : Store), LitSpec σ (readLiteral σ d).1 (readLiteral σ d).2
+  | .prim p _, σ => by
+    rw [readLiteral]
+    split
+    · refine ⟨LitStep.refl σ, fun wf => ⟨wf, fun v hv => ?_⟩⟩
+      rename_i v' hp
+      cases hv
+      cases p <;> simp [evalPrim] at hp <;> try (subst hp; simp [Store.AllocIn])
+      rename_i n d'
+      cases hq : Num.exactRatio n d' <;> simp [hq, Except.map] at hp
+      subst hp; simp [Store.AllocIn]
+    · exact ⟨LitStep.refl σ, fun wf => ⟨wf, fun v hv => by cases hv⟩⟩
+  | .sym s _, σ => by
+    rw [readLiteral]
+    exact ⟨LitStep.refl σ, fun wf => ⟨wf, fun v hv => by cases hv; simp [Store.AllocIn]⟩⟩
+  | .nil _, σ => by
+    rw [readLiteral]
+    exact ⟨LitStep.refl σ, fun wf => ⟨wf, fun v hv => by cases hv; simp [Store.AllocIn]⟩⟩
+  | .pair a d _, σ => by
+    rw [readLiteral]
+    have ha := readLiteral_spec a σ
+    split
+    · rename_i e σ₁ h₁
+      rw [h₁] at ha
+      exact ⟨ha.1, fun wf => ⟨(ha.2 wf).1, fun v hv => by cases hv⟩⟩
+    · rename_i va σ₁ h₁
+      rw [h₁] at ha
+      have hd := readLiteral_spec d σ₁
+      split
+      · rename_i e σ₂ h₂
+        rw [h₂] at hd
+        exact ⟨ha.1.trans hd.1, fun wf => ⟨(hd.2 (ha.2 wf).1).1, fun v hv => by cases hv⟩⟩
+      · rename_i vd σ₂ h₂
+        rw [h₂] at hd
+        refine ⟨ha.1.trans hd.1, fun wf => ⟨(hd.2 (ha.2 wf).1).1, fun v hv => ?_⟩⟩
+        cases hv
+        simp only [Store.AllocIn, Value.below_pair]
+        exact ⟨((ha.2 wf).2 va rfl).grows hd.1.grows, (hd.2 (ha.2 wf).1).2 vd rfl⟩
+  | .vec xs _, σ => by
+    rw [readLiteral]
+    have hx := readLiterals_spec xs σ
+    split
+    · rename_i e σ₁ h₁
+      rw [h₁] at hx
+      exact ⟨hx.1, fun wf => ⟨(hx.2 wf).1, fun v hv => by cases hv⟩⟩
+    · rename_i vs σ₁ h₁
+      rw [h₁] at hx
+      refine ⟨hx.1.trans (LitStep.allocVec σ₁ vs), fun wf => ⟨?_, fun v hv => ?_⟩⟩
+      · exact Store.wf_allocVec (hx.2 wf).1 false ((hx.2 wf).2 vs rfl)
+      · cases hv; exact Store.allocIn_allocVec σ₁ false vs
+theorem readLiterals_spec : ∀ (ds : List Datum) (σ : Store),
+    LitsSpec σ (readLiterals σ ds).1 (readLiterals σ ds).2
+  | [], σ => by
+    rw [readLiterals]
+    exact ⟨LitStep.refl σ, fun wf => ⟨wf, fun vs hv v hm => by cases hv; simp at hm⟩⟩
+  | x :: xs, σ => by
+    rw [readLiterals]
+    have ha := readLiteral_spec x σ
+    split
+    · rename_i e σ₁ h₁
+      rw [h₁] at ha
+      exact ⟨ha.1, fun wf => ⟨(ha.2 wf).1, fun v hv => by cases hv⟩⟩
+    · rename_i va σ₁ h₁
+      rw [h₁] at ha
+      have hd := readLiterals_spec xs σ₁
+      split
+      · rename_i e σ₂ h₂
+        rw [h₂] at hd
+        exact ⟨ha.1.trans hd.1, fun wf => ⟨(hd.2 (ha.2 wf).1).1, fun v hv => by cases hv⟩⟩
+      · rename_i vd σ₂ h₂
+        rw [h₂] at hd
+        refine ⟨ha.1.trans hd.1, fun wf => ⟨(hd.2 (ha.2 wf).1).1, fun vs hv v hm => ?_⟩⟩
+        cases hv
+        simp only [List.mem_cons] at hm
+        rcases hm with rfl | hm
+        · exact ((ha.2 wf).2 _ rfl).grows hd.1.grows
+        · exact (hd.2 (ha.2 wf).1).2 vd rfl v hm
+end
+
+theorem readLiteral_litStep (σ : Store) (d : Datum) : LitStep σ (readLiteral σ d).2 := (readLiteral_spec d σ).1
+theorem readLiteral_grows (σ : Store) (d : Datum) : Store.Grows σ (readLiteral σ d).2 :=
+  (readLiteral_spec d σ).1.grows
+theorem readLiteral_wf {σ : Store} (wf : σ.WF) (d : Datum) :
+    (readLiteral σ d).2.WF ∧ ∀ v, (readLiteral σ d).1 = .ok v → (readLiteral σ d).2.AllocIn v :=
+  (readLiteral_spec d σ).2 wf
+
+theorem LitStep.old_cells {σ σ' : Store} (h : LitStep σ σ') {i : Nat} (hi : i < σ.vecs.size) :
+    σ'.vecs[i]? = σ.vecs[i]? := by
+  obtain ⟨cells, rfl, _⟩ := h
+  simp only
+  rw [Array.getElem?_append_left hi]
+
+theorem LitStep.new_cells {σ σ' : Store} (h : LitStep σ σ') {i : Nat} {c : VecCell}
+    (hc : σ'.vecs[i]? = some c) (hi : σ.vecs.size ≤ i) : c.mutable = false := by
+  obtain ⟨cells, rfl, him⟩ := h
+  simp only at hc
+  rw [Array.getElem?_append_right hi] at hc
+  exact him c (Array.mem_of_getElem? hc)
+
+theorem LitStep.frames {σ σ' : Store} (h : LitStep σ σ') : σ'.frames = σ.frames := by
+  obtain ⟨cells, rfl, _⟩ := h; rfl
+
+/-- a vector literal evaluates to a reference to a cell that did not exist before, and that cell
+is immutable -/
+theorem readLiteral_vec {σ : Store} {xs : List Datum} {l : Loc} {v : Value} {σ' : Store}
+    (h : readLiteral σ (.vec xs l) = (.ok v, σ')) :
+    ∃ id vs, v = .vec id ∧ σ.vecs.size ≤ id ∧ σ'.vecs.size = id + 1 ∧
+      σ'.vecs[id]? = some { mutable := false, items := vs } := by
+  rw [readLiteral] at h
+  have hx := readLiterals_spec xs σ
+  split at h
+  · cases h
+  · rename_i vs σ₁ h₁
+    rw [h₁] at hx
+    simp only [Store.allocVec, Prod.mk.injEq, Except.ok.injEq] at h
+    obtain ⟨rfl, rfl⟩ := h
+    exact ⟨σ₁.vecs.size, vs, rfl, hx.1.grows.vecs_size, by simp, by simp⟩
+
+/-! ## `enter`, `leave`, `bindFixed` -/
+
+@[simp] theorem enter_frames (σ : Store) : (enter σ).frames = σ.frames := rfl
+@[simp] theorem enter_vecs (σ : Store) : (enter σ).vecs = σ.vecs := rfl
+@[simp] theorem leave_frames (σ : Store) : (leave σ).frames = σ.frames := rfl
+@[simp] theorem leave_vecs (σ : Store) : (leave σ).vecs = σ.vecs := rfl
+
+theorem grows_enter (σ : Store) : Store.Grows σ (enter σ) := Store.Grows.of_eq rfl rfl
+theorem grows_leave (σ : Store) : Store.Grows σ (leave σ) := Store.Grows.of_eq rfl rfl
+
+theorem wf_of_eq {σ σ' : Store} (wf : σ.WF) (hf : σ'.frames = σ.frames) (hv : σ'.vecs = σ.vecs) : σ'.WF := by
+  refine ⟨?_, ?_, ?_⟩
+  · rw [hf]; exact wf.parent_lt
+  · intro i f hi kv hkv; rw [hf] at hi
+    have := wf.frame_vals i f hi kv hkv
+    simpa [Store.AllocIn, hf, hv] using this
+  · intro i c hi v hv'; rw [hv] at hi
+    have := wf.vec_vals i c hi v hv'
+    simpa [Store.AllocIn, hf, hv] using this
+
+theorem allocIn_of_eq {σ σ' : Store} (hf : σ'.frames = σ.frames) (hv : σ'.vecs = σ.vecs) (v : Value) :
+    σ'.AllocIn v ↔ σ.AllocIn v := by simp [Store.AllocIn, hf, hv]
+
+theorem bindFixed_grows : ∀ (names : List String) (args : List Value) (σ : Store) (ρ : Nat),
+    Store.Grows σ (bindFixed σ ρ names args).2
+  | [], _, σ, _ => by rw [bindFixed]; exact Store.Grows.refl σ
+  | _ :: _, [], σ, _ => by rw [bindFixed]; exact Store.Grows.refl σ
+  | f :: fs, a :: as, σ, ρ => by
+    rw [bindFixed]
+    exact (Store.grows_define σ ρ f a).trans (bindFixed_grows fs as _ ρ)
+
+theorem bindFixed_wf : ∀ (names : List String) (args : List Value) (σ : Store) (ρ : Nat), σ.WF →
+    (∀ a ∈ args, σ.AllocIn a) →
+    (bindFixed σ ρ names args).2.WF ∧
+      ∀ rest, (bindFixed σ ρ names args).1 = .ok rest → ∀ a ∈ rest, (bindFixed σ ρ names args).2.AllocIn a
+  | [], args, σ, _, wf, ha => by
+    rw [bindFixed]; exact ⟨wf, fun rest h a hm => by cases h; exact ha a hm⟩
+  | _ :: _, [], σ, _, wf, _ => by
+    rw [bindFixed]; exact ⟨wf, fun rest h => by cases h⟩
+  | f :: fs, a :: as, σ, ρ, wf, ha => by
+    rw [bindFixed]
+    refine bindFixed_wf fs as _ ρ (Store.wf_define wf ρ f (ha a (by simp))) fun x hx => ?_
+    exact (ha x (by simp [hx])).grows (Store.grows_define σ ρ f a)
+
+/-- `bindFixed` writes to frame `ρ` only -/
+theorem bindFixed_other : ∀ (names : List String) (args : List Value) (σ : Store) (ρ : Nat),
+    let σ' := (bindFixed σ ρ names args).2
+    σ'.vecs = σ.vecs ∧ σ'.out = σ.out ∧ σ'.ticks = σ.ticks ∧ σ'.depth = σ.depth ∧
+    σ'.maxDepth = σ.maxDepth ∧ σ'.frames.size = σ.frames.size ∧
+    (∀ i, i ≠ ρ → σ'.frames[i]? = σ.frames[i]?) ∧ σ'.parentOf ρ = σ.parentOf ρ
+  | [], _, σ, _ => by rw [bindFixed]; simp
+  | _ :: _, [], σ, _ => by rw [bindFixed]; simp
+  | f :: fs, a :: as, σ, ρ => by
+    rw [bindFixed]
+    have ih := bindFixed_other fs as (σ.define ρ f a) ρ
+    simp only [Store.define_vecs, Store.define_out, Store.define_ticks, Store.define_depth,
+      Store.define_maxDepth, Store.define_frames_size, Store.parentOf_define] at ih
+    obtain ⟨h1, h2, h3, h4, h5, h6, h7, h8⟩ := ih
+    refine ⟨h1, h2, h3, h4, h5, h6, fun i hi => ?_, h8⟩
+    rw [h7 i hi, Store.define_frames_getElem?]
+    simp [hi]
+
+theorem lookup_append_ite (y : String) (l₁ l₂ : List (String × Value)) :
+    (l₁ ++ l₂).lookup y = match l₁.lookup y with | some a => some a | none => l₂.lookup y := by
+  induction l₁ with
+  | nil => simp
+  | cons p l ih =>
+    obtain ⟨k, b⟩ := p
+    simp only [List.cons_append, Store.lookup_cons_ite]
+    split
+    · rfl
+    · exact ih
+
+/-- the bindings of frame `ρ` after binding the fixed parameters: parameter `names[i]` holds
+`args[i]` (the last occurrence of a repeated name wins), every other name is untouched; the
+arguments left over are returned -/
+theorem bindFixed_bindings : ∀ (names : List String) (args : List Value) (σ : Store) (ρ : Nat)
+    (rest : List Value) (σ' : Store), ρ < σ.frames.size → bindFixed σ ρ names args = (.ok rest, σ') →
+    names.length ≤ args.length ∧ rest = args.drop names.length ∧
+    ∀ y, σ'.binding ρ y = match ((names.zip args).reverse).lookup y with
+      | some a => some a
+      | none => σ.binding ρ y
+  | [], args, σ, ρ, rest, σ', _, h => by
+    rw [bindFixed] at h; cases h; simp
+  | _ :: _, [], σ, _, rest, σ', _, h => by
+    rw [bindFixed] at h; cases h
+  | f :: fs, a :: as, σ, ρ, rest, σ', hρ, h => by
+    rw [bindFixed] at h
+    obtain ⟨h1, h2, h3⟩ := bindFixed_bindings fs as (σ.define ρ f a) ρ rest σ' (by simpa using hρ) h
+    refine ⟨by simpa using h1, by simpa using h2, fun y => ?_⟩
+    rw [h3 y, Store.binding_define]
+    simp only [List.zip_cons_cons, List.reverse_cons, lookup_append_ite, Store.lookup_cons_ite,
+      List.lookup_nil, true_and, hρ, and_true]
+    cases ((fs.zip as).reverse).lookup y <;> simp
+    split <;> rfl
+
+end Eval
+
+/-! ## `vector-set!` and `vector-ref` on a reference -/
+
+namespace Prim
+
+theorem vectorSet_outcome {σ : Store} {id : Nat} {cell : VecCell} (hc : σ.vecs[id]? = some cell)
+    (n : Int) (obj : Value) (rest : List Value) :
+    applyPure σ .vectorSet (.vec id :: .num (.int n) :: obj :: rest) =
+      if cell.mutable = false then (.error (.immutable, none), σ)
+      else if n < 0 ∨ cell.items.length ≤ n.toNat then (.error (.vectorIndex, none), σ)
+      else (.ok .void, vsetStore σ id cell n.toNat obj) := by
+  simp only [applyPure, hc, listSet_eq]
+  cases hm : cell.mutable <;> simp [err, ok, vsetStore]
+  by_cases hn : n < 0
+  · simp [hn]
+  · simp only [hn, if_false, false_or]
+    by_cases hl : n.toNat < cell.items.length
+    · simp [hl, Nat.not_le.2 hl, hm]
+    · simp [hl, Nat.not_lt.1 hl]
+
+theorem vectorRef_outcome {σ : Store} {id : Nat} {cell : VecCell} (hc : σ.vecs[id]? = some cell)
+    (n : Int) (rest : List Value) :
+    applyPure σ .vectorRef (.vec id :: .num (.int n) :: rest) =
+      if n < 0 then (.error (.vectorIndex, none), σ)
+      else match cell.items[n.toNat]? with
+        | some x => (.ok x, σ)
+        | none => (.error (.vectorIndex, none), σ) := by
+  simp only [applyPure, hc]
+  split
+  · rfl
+  · split <;> simp_all [ok, err]
+
+/-- `vector-ref` through a reference looks at the cell of that id and at nothing else -/
+theorem vectorRef_congr {σ σ' : Store} {id : Nat} (h : σ'.vecs[id]? = σ.vecs[id]?) (k : Value)
+    (rest : List Value) :
+    (applyPure σ' .vectorRef (.vec id :: k :: rest)).1 = (applyPure σ .vectorRef (.vec id :: k :: rest)).1 ∧
+    (applyPure σ' .vectorRef (.vec id :: k :: rest)).2 = σ' := by
+  refine ⟨?_, ?_⟩
+  · simp only [applyPure, h]
+    repeat' split
+    all_goals simp [ok, err]
+  · simp only [applyPure]
+    repeat' split
+    all_goals simp [ok, err]
+
+end Prim
+
 end Ruschm
